@@ -47,6 +47,27 @@ def make_array(rng, shape, dtype, smooth=False):
     return a.astype(dtype).reshape(shape)
 
 
+def relayout(rng, a):
+    """Same values, another memory layout (C, Fortran, transposed view of an
+    (X,Y,Z,C) array, strided view of a larger buffer)."""
+    k = int(rng.integers(0, 5))
+    if k == 0:
+        return a, "C"
+    if k == 1:
+        return np.asfortranarray(a), "F"
+    if k == 2:
+        base = np.ascontiguousarray(a.transpose(3, 2, 1, 0))      # (X,Y,Z,C) C-contiguous
+        return base.transpose(3, 2, 1, 0), "xyzc-view"
+    if k == 3:
+        big = np.zeros(tuple(2 * n for n in a.shape), dtype=a.dtype)
+        v = big[::2, ::2, ::2, ::2]
+        v[...] = a
+        return v, "strided"
+    ro = a.copy()
+    ro.setflags(write=False)
+    return ro, "readonly"
+
+
 def enc_bytes(a):
     return list(np.ascontiguousarray(a).astype(a.dtype.newbyteorder("<")).tobytes())
 
@@ -75,6 +96,7 @@ def run_history(workdir, model_info, ops, kind, dtype, channels, encoding, rng,
     info = build_info(model_info, dtype, channels, encoding, block, sharding)
     events = []
     accs = []
+    held = []
     lossy = encoding == "jpeg"
 
     def mk_acc():
@@ -112,8 +134,9 @@ def run_history(workdir, model_info, ops, kind, dtype, channels, encoding, rng,
                 if op["op"] == "write":
                     shape = (channels, c[5] - c[4], c[3] - c[2], c[1] - c[0])
                     arr = make_array(rng, shape, dtype, smooth=lossy)
+                    arr, layout = relayout(rng, arr)
                     ev = {"op": "write", "s": op["s"], "c": list(c), "shape": list(arr.shape),
-                          "dt": str(np.dtype(dtype).name), "bytes": enc_bytes(arr)}
+                          "dt": str(np.dtype(dtype).name), "bytes": enc_bytes(arr), "layout": layout}
                     try:
                         io_obj.write_chunk(arr, key, c)
                         ev["res"] = "ok"
@@ -126,7 +149,7 @@ def run_history(workdir, model_info, ops, kind, dtype, channels, encoding, rng,
                         ev["cls"] = type(e).__name__
                     events.append(ev)
                 else:
-                    events.append(read_event(io_obj, op["s"], c))
+                    events.append(read_event(io_obj, op["s"], c, held))
             # final sweep through a FRESH handle: every chunk ever written
             if kind["acc"] == "sharded":
                 acc.close()
@@ -139,7 +162,10 @@ def run_history(workdir, model_info, ops, kind, dtype, channels, encoding, rng,
             io_obj = pio.get_IO_for_existing_dataset(acc, encoder_options=enc_opts or {})
             events.append({"op": "reopen", "s": 0, "c": [], "res": "ok", "shape": [], "dt": "", "bytes": []})
             for (s, c) in written:
-                events.append(read_event(io_obj, s, c))
+                events.append(read_event(io_obj, s, c, held))
+            # the arrays handed out earlier must still hold what was read
+            for ev, arr in held:
+                ev["late"] = enc_bytes(arr)
     finally:
         for a in accs:
             if hasattr(a, "close"):
@@ -150,11 +176,13 @@ def run_history(workdir, model_info, ops, kind, dtype, channels, encoding, rng,
             "events": events, "size": [], "chunks": [], "items": []}
 
 
-def read_event(io_obj, s, c):
+def read_event(io_obj, s, c, keep=None):
     ev = {"op": "read", "s": s, "c": list(c)}
     try:
         arr = io_obj.read_chunk("s%d" % s, tuple(c))
         ev.update(res="ok", shape=list(arr.shape), dt=str(arr.dtype.name), bytes=enc_bytes(arr))
+        if keep is not None:
+            keep.append((ev, arr))
     except Exception as e:
         ev.update(res="exc", cls=type(e).__name__, shape=[], dt="", bytes=[])
     return ev
